@@ -24,7 +24,14 @@ func jsSources(cb *compiled, opts soyjs.Options, module bool) ([]jsFile, error) 
 	for _, f := range cb.reg.SoyFiles {
 		var buf bytes.Buffer
 		var err error
-		if p := catch(func() { err = soyjs.Write(&buf, f, opts) }); p != nil {
+		if p := catch(func() {
+			if opts.Messages == nil && opts.Formatter == nil && len(f.Text)%2 == 0 {
+				// the other public way to the same text
+				err = soyjs.NewGenerator(cb.reg).WriteFile(&buf, f.Name)
+				return
+			}
+			err = soyjs.Write(&buf, f, opts)
+		}); p != nil {
 			return nil, fmt.Errorf("soyjs.Write panicked on %s: %v", f.Name, p)
 		}
 		if err != nil {
@@ -151,7 +158,7 @@ func checkC04(c gen.ProgCase) Verdict {
 
 func genC04(t *rapid.T) gen.ProgCase {
 	g := &gen.G{T: t, P: gen.Profile{Common: true, Unicode: true, HTMLChars: true, Directives: true}}
-	return gen.GenProgram(g, gen.ProgOpts{MaxTemplates: scale(4, 6), MaxDepth: scale(3, 4), MaxCmds: 4, ExprDepth: 2, PosWeight: 6, ScopeWeight: 8, CallWeight: 8, MinTemplates: 1})
+	return gen.GenProgram(g, gen.ProgOpts{MaxTemplates: scale(4, 6), MaxDepth: scale(3, 4), MaxCmds: 4, ExprDepth: 2, PosWeight: 6, ScopeWeight: 8, CallWeight: 8, MinTemplates: 1, NumStress: 6})
 }
 
 func TestC04(t *testing.T) {
